@@ -5,11 +5,14 @@ import numpy as np
 class PythonSampler:
     def __init__(self, weights: np.ndarray, seed: Optional[int] = None) -> None:
         self.rng = np.random.default_rng(seed or 1)
+        # Work on a private copy (the worklist loop below updates the weights in place) and,
+        # like vose.Sampler, do not require the weights to sum up to 1.
+        weights = np.array(weights, dtype=float)
         n = len(weights)
         alias = np.zeros(n, dtype=int)
         proba = np.zeros(n, dtype=float)
         # Compute the average probability and cache it for later use.
-        avg = 1.0 / n
+        avg = np.sum(weights) / n
         # Create two stacks to act as worklists as we populate the tables.
         small = []
         large = []
@@ -31,7 +34,7 @@ class PythonSampler:
             more = large.pop(0)
             # These probabilities have not yet been scaled up to be such that 1 / n is given weight
             # 1.0. We do this here instead.
-            proba[less] = weights[less] * n
+            proba[less] = weights[less] / avg
             alias[less] = more
             # Decrease the probability of the larger one by the appropriate amount.
             weights[more] = weights[more] + weights[less] - avg
